@@ -476,6 +476,31 @@ def metamorphic(run: Run, thorough: bool):
     run.sample(dict(kind="metamorphic-fit", model=kinds_fit[0], seed=seeds[0], n_iter=n_iter,
                     variants=["repeat", "rng-consumed-before", "other-model-fitted-before", "logging grid"]))
 
+    # ---- logging right before a proposal-scale adaptation (the samplers adapt every 25 iterations by default): a fit long enough to
+    # contain one, observed at iteration 24 (print every 8 / 12 / 24) — whatever an observer computes must not be reused by the run
+    n_long = 30
+    for kind in kinds_fit[:1]:
+        desc0 = dict(algo="mcmc_saem", kind=kind, seed=seeds[0], n_iter=n_long)
+        try:
+            ref = run_algo(run, "mcmc_saem", kind, seeds[0], n_long, {}, False)
+        except Exception as e:
+            run.fail(f"fit:abort:{type(e).__name__}", f"plain fit raised {type(e).__name__}: {e}", desc0)
+            ref = None
+        for logs, with_path in ([(dict(print_periodicity=8), False), (dict(print_periodicity=24), False),
+                                 (dict(print_periodicity=12, save_periodicity=6), True)] if ref is not None else []):
+            desc = dict(desc0, variant="logging-before-adaptation", logs=logs, path=("tmp" if with_path else None))
+            run.case(("fit-long", kind, tuple(sorted(logs.items())), with_path), nontrivial=True)
+            try:
+                got = run_algo(run, "mcmc_saem", kind, seeds[0], n_long, logs, with_path)
+            except Refused:
+                continue
+            except Exception as e:
+                run.fail(f"logging:abort:{type(e).__name__}", f"accepted configuration aborts the fit: {type(e).__name__}: {e}", desc,
+                         expected="run finishes", observed=f"{type(e).__name__}: {e}")
+                continue
+            run.count("fit_variants", "logging-before-adaptation")
+            check_equal(run, ref, got, desc, "logging")
+
     # ---- the same with a non-default schedule in force (annealing on): whatever the algorithm does per iteration besides
     # sampling and maximising (temperature updates, ...) must not depend on whether a logs manager exists
     ann = dict(annealing=dict(do_annealing=True, n_plateau=3, initial_temperature=5.0))
